@@ -1,18 +1,22 @@
 ----------------------------- MODULE CurrentTree -----------------------------
-(* Deviation switches describing the tree as it is today: a switch is TRUE iff the
-   corresponding finding is still open in known_findings.json (not repaired by a fix: commit).
-   Regenerated by bin/check from known_findings.json before every trace validation. *)
+(* generated from known_findings.json: a switch is TRUE iff its finding is open *)
 ImplCurrentTree ==
-    [ removalOverwrite      |-> FALSE,
+    [ removalOverwrite |-> FALSE,
       staleRemovalOnDespawn |-> FALSE,
-      noLostDespawnHidden   |-> FALSE,
+      noLostDespawnHidden |-> FALSE,
       whiteReAddForgetsLost |-> FALSE,
-      ackOnReceipt          |-> FALSE,
-      periodicAckSwallow    |-> FALSE,
-      periodicBumpSwallow   |-> FALSE,
-      ackDiscarded          |-> FALSE,
-      lateJoinerMissesEmpty |-> FALSE, staleBuffersOnRestart |-> FALSE,
+      ackOnReceipt |-> FALSE,
+      periodicAckSwallow |-> FALSE,
+      periodicBumpSwallow |-> FALSE,
+      ackDiscarded |-> FALSE,
+      lateJoinerMissesEmpty |-> FALSE,
+      staleBuffersOnRestart |-> FALSE,
       emptyMutateWithGraphs |-> FALSE,
-      refBeforeSpawnUnmarked|-> TRUE,
-      seedLeakHidden        |-> FALSE, seedIgnoreMapping |-> FALSE, seedEvNoQueue |-> FALSE, seedEvNoExclude |-> FALSE, seedEvUnauth |-> FALSE ]
+      refBeforeSpawnUnmarked |-> FALSE,
+      clientLinkedDespawn |-> TRUE,
+      seedLeakHidden |-> FALSE,
+      seedIgnoreMapping |-> FALSE,
+      seedEvNoQueue |-> FALSE,
+      seedEvNoExclude |-> FALSE,
+      seedEvUnauth |-> FALSE ]
 =============================================================================
